@@ -273,9 +273,9 @@ def a64_compose(mode: int, is_store: bool, row_present: bool, suffix: bool, c_re
 
 CELLS = {
     "x86_pair": {"fn": x86_pair, "bound": "two memory-composed instructions (load / store / read-modify-write) with data registers of different types on the textually identical address, analysed with one model object in both orders, over the same table layouts (typed / untyped / default rows, 3 addressing shapes, multipliers); selected row cycles symbolic ints 0..16, other numbers fixed",
-                 "budget": {"quick": 170, "thorough": 600}, "shards": 9},
+                 "budget": {"quick": 400, "thorough": 600}, "shards": 9},
     "x86_compose": {"fn": x86_compose, "bound": "role {load, store, read-modify-write} x addressing shape {(b), d(b), d(b,i,4)} x {matching row present, only default} x {register-type-specific row present} x {gpr, xmm} x {multipliers present} x {mnemonic with/without size suffix}; register-form cycles/throughput/latency, the selected load and store rows' cycles, load latency and load multiplier symbolic ints (pressures become exact rationals), all other rows distinct concrete markers",
-                    "budget": {"quick": 170, "thorough": 900}, "shards": 9},
+                    "budget": {"quick": 400, "thorough": 900}, "shards": 9},
     "a64_compose": {"fn": a64_compose, "bound": "AArch64 load / store with offset, pre- and post-indexed addressing x row present; register-form numbers, selected row cycles and load latency symbolic ints (pressures become exact rationals)", "budget": {"quick": 170, "thorough": 600}},
 }
 
